@@ -756,7 +756,7 @@ struct Engine : public vf::Engine {
         bool cfront = d.profile == "cfront";
         int nSched = (int)d.pi("schedules", 2); if (nSched < 1) nSched = 1;
         CppFront cpp; CFront cfr;
-        for (int k = 0; k < nSched && r.viols.empty(); k++) {
+        for (int k = 0; k < nSched && !r.hasWanted(); k++) {
             Vec<Vec<size_t> > orders(scs.size());
             for (size_t i = 0; i < scs.size(); i++) makeOrder(scs[i], mix64(d.seed, i), k, orders[i]);
             Vec<Outcome> outs; Vec<Vec<std::pair<Str, Str> > > fails;
@@ -803,7 +803,7 @@ struct Engine : public vf::Engine {
                     if (F.out) { Str wo = F.outTy == T_INT ? sfmt(" out=%d", 100 + ret) : sfmt(" out=MyType(%d)", ret); if (line.find(wo) == Str::npos) r.fail("C08", "output_bytes", sg("type", tyNames[F.outTy]), sfmt("scenario %zu call %zu (%s): %s, expected '%s'", i, q, F.name, line.c_str(), wo.c_str())); }
                 }
             }
-            if (cfront && r.viols.empty()) {
+            if (cfront && !r.hasWanted()) {
                 // the same scenarios, same schedules, through the C interface: everything observable must be identical
                 Vec<Outcome> outsC; Vec<Vec<std::pair<Str, Str> > > failsC;
                 runOnce(scs, orders, cfr, outsC, failsC);
